@@ -85,7 +85,10 @@ def call_closure(prog, clo, args, call, depth, inline=False):
             return ("variant", clo[1].split("::")[-1], list(args), 0, tuple(f["name"] for f in ad_["variants"][0]["fields"]), _mir.strip_generics(clo[1]))
     if isinstance(clo, tuple) and clo and clo[0] == "fnitem" and call is not None:
         # a foreign function item (e.g. `Into::into`, a tuple-struct constructor): let the handler decide
-        v = call(clo[1], list(args), {"callee": clo[1], "args": [], "gargs": []})
+        from . import mir as _mir
+        nm_ = _mir.strip_generics(clo[1])
+        tr_ = nm_.rsplit("::", 1)[0] if nm_.count("::") else None
+        v = call(clo[1], list(args), {"callee": clo[1], "args": [], "gargs": list(clo[2]) if len(clo) > 2 else [], "trait": tr_, "method": nm_.split("::")[-1]})
         if v is not None:
             return v
     if not (isinstance(clo, tuple) and clo and clo[0] == "closure"):
@@ -176,6 +179,10 @@ def option_builtin(prog, name, args, call, depth, inline=False):
         return not is_some
     if m in ("as_ref", "as_mut", "cloned", "copied", "take"):
         return o
+    if m == "is_some_and" and len(args) == 2:
+        return call_closure(prog, args[1], [val], call, depth, inline) if is_some else False
+    if m == "is_none_or" and len(args) == 2:
+        return call_closure(prog, args[1], [val], call, depth, inline) if is_some else True
     if m == "map" and len(args) == 2:
         return some(call_closure(prog, args[1], [val], call, depth, inline)) if is_some else NONE
     if m == "and_then" and len(args) == 2:
@@ -221,6 +228,10 @@ def _store(base, proj, v):
     pr = proj[0]
     if pr == "*":
         raise Unrecognised("store through a reference")
+    if isinstance(pr, dict) and "dc" in pr:
+        if not (isinstance(base, tuple) and base and base[0] == "variant" and base[1] == pr.get("n")):
+            raise Unrecognised("store into variant %s of %r" % (pr.get("n"), base))
+        return _store(base, proj[1:], v)
     if isinstance(pr, dict) and "f" in pr and isinstance(base, tuple) and base and base[0] in ("variant", "tuple"):
         items = list(base[2] if base[0] == "variant" else base[1])
         items[pr["f"]] = _store(items[pr["f"]], proj[1:], v)
@@ -301,7 +312,7 @@ def _callee_tysub(prog, tgt, t):
     return {}
 
 
-def run(body, start_bb, env, call=None, max_steps=400, prog=None, depth=0, inline=False, symvals=None, tysub=None):
+def run(body, start_bb, env, call=None, max_steps=400, prog=None, depth=0, inline=False, symvals=None, tysub=None, mut_params=frozenset(), out_env=None):
     """Interpret `body` from block start_bb with initial local environment env {local: value}.
     Values: int/bool, Sym, ('tuple', [...]), ('variant', name, [...]), ('closure', path, upvars).
     With `prog`, Option combinators taking closures are interpreted by running the closure bodies.
@@ -311,13 +322,15 @@ def run(body, start_bb, env, call=None, max_steps=400, prog=None, depth=0, inlin
     if symvals is not None:
         _SYMVALS.append(symvals)
         try:
-            return run(body, start_bb, env, call=call, max_steps=max_steps, prog=prog, depth=depth, inline=inline, symvals=None)
+            return run(body, start_bb, env, call=call, max_steps=max_steps, prog=prog, depth=depth, inline=inline, symvals=None, tysub=tysub,
+                       mut_params=mut_params, out_env=out_env)
         finally:
             _SYMVALS.pop()
     if tysub is not None:
         _TYSUB.append(tysub)
         try:
-            return run(body, start_bb, env, call=call, max_steps=max_steps, prog=prog, depth=depth, inline=inline, symvals=None, tysub=None)
+            return run(body, start_bb, env, call=call, max_steps=max_steps, prog=prog, depth=depth, inline=inline, symvals=None, tysub=None,
+                       mut_params=mut_params, out_env=out_env)
         finally:
             _TYSUB.pop()
     symvals = _SYMVALS[-1] if _SYMVALS else None
@@ -326,7 +339,17 @@ def run(body, start_bb, env, call=None, max_steps=400, prog=None, depth=0, inlin
     steps = 0
     mutrefs = {}
 
+    n_params = getattr(body, "arg_count", 0) or 0
+
+    def writable(root):
+        """may the value of this local be updated in place?  own locals always; a parameter only when the caller takes the update back"""
+        return root > n_params or root in mut_params
+
     def place_val(pl):
+        if pl["l"] in mutrefs:
+            # a unique borrow denotes the borrowed place: read what is there now
+            root_, path_ = mutrefs[pl["l"]]
+            pl = {"l": root_, "p": list(path_) + list(pl["p"])}
         if pl["l"] not in env:
             raise Unrecognised("read of undefined local _%d" % pl["l"])
         v = env[pl["l"]]
@@ -383,7 +406,7 @@ def run(body, start_bb, env, call=None, max_steps=400, prog=None, depth=0, inlin
             if isinstance(c.get("tyconst"), dict) and "int" in c["tyconst"]:
                 return int(c["tyconst"]["int"])
             if "fn" in c:
-                return ("fnitem", c["fn"])
+                return ("fnitem", c["fn"], tuple(a for a in c.get("args", []) if isinstance(a, int)))
             if c.get("zst"):
                 return ("tuple", [])
             if "str" in c:
@@ -420,6 +443,36 @@ def run(body, start_bb, env, call=None, max_steps=400, prog=None, depth=0, inlin
             return v != 0
         raise Unrecognised("branch on non-concrete value %r" % (v,))
 
+    def is_mut_ref(l_):
+        if prog is None or l_ >= len(body.locals):
+            return False
+        ty_ = body.locals[l_].get("ty")
+        return isinstance(ty_, int) and prog.types[ty_]["k"] == "ref" and bool(prog.types[ty_].get("m"))
+
+    def borrowed(i_):
+        """(root, path) when argument i_ of the call being interpreted is a unique borrow of a place this body may update"""
+        a_ = t["args"][i_].get("move") or t["args"][i_].get("copy") if i_ < len(t["args"]) else None
+        if a_ is not None and not a_["p"] and a_["l"] in mutrefs and writable(mutrefs[a_["l"]][0]):
+            return mutrefs[a_["l"]]
+        if a_ is not None and not a_["p"] and a_["l"] in mut_params and is_mut_ref(a_["l"]):
+            return (a_["l"], [])
+        return None
+
+    def update(tgt_, nv_):
+        env[tgt_[0]] = _store(env.get(tgt_[0]), list(tgt_[1]), nv_) if tgt_[1] else nv_
+
+    def inline_call(cb, t, args, sub_):
+        """a crate-local callee interpreted in place; what it stores through its `&mut` parameters is taken back into the borrowed places"""
+        outs_ = {i_: borrowed(i_) for i_ in range(len(args))}
+        outs_ = {i_: b_ for i_, b_ in outs_.items() if b_ is not None}
+        fin_ = {}
+        r_ = run(cb, 0, {i + 1: a for i, a in enumerate(args)}, call=call, prog=prog, depth=depth + 1, inline=True, tysub=sub_,
+                 mut_params=frozenset(i_ + 1 for i_ in outs_), out_env=fin_)
+        for i_, tgt_ in outs_.items():
+            if i_ + 1 in fin_:
+                update(tgt_, fin_[i_ + 1])
+        return r_
+
     can_return = getattr(body, "_can_return", None)
     if can_return is None:
         can_return = set(body.return_blocks())
@@ -448,19 +501,31 @@ def run(body, start_bb, env, call=None, max_steps=400, prog=None, depth=0, inlin
             lhs = s["lhs"]
             rv = s["rv"]
             k = rv["k"]
+            if not lhs["p"] and k not in ("use", "ref"):
+                mutrefs.pop(lhs["l"], None)
             if k == "use":
                 v = operand(rv["op"])
                 src_ = rv["op"].get("move") or rv["op"].get("copy")
                 if src_ is not None and not src_["p"] and src_["l"] in mutrefs and not lhs["p"]:
                     mutrefs[lhs["l"]] = mutrefs[src_["l"]]
+                elif src_ is not None and not src_["p"] and not lhs["p"] and is_mut_ref(src_["l"]):
+                    mutrefs[lhs["l"]] = (src_["l"], [])      # a `&mut` parameter handed on: the parameter local stands for the borrowed value
+                elif not lhs["p"]:
+                    mutrefs.pop(lhs["l"], None)
             elif k in ("ref", "copyderef", "rawptr"):
                 v = place_val(rv["place"])
                 if k == "ref" and rv.get("mut") and not lhs["p"]:
                     pl_ = rv["place"]
-                    if not pl_["p"]:
-                        mutrefs[lhs["l"]] = pl_["l"]
-                    elif pl_["p"] == ["*"] and pl_["l"] in mutrefs:
-                        mutrefs[lhs["l"]] = mutrefs[pl_["l"]]
+                    sub_ = [x for x in pl_["p"] if x != "*"]
+                    if all(isinstance(x, dict) and ("f" in x or "dc" in x) for x in sub_):
+                        if pl_["l"] in mutrefs:
+                            mutrefs[lhs["l"]] = (mutrefs[pl_["l"]][0], list(mutrefs[pl_["l"]][1]) + sub_)
+                        else:
+                            mutrefs[lhs["l"]] = (pl_["l"], sub_)
+                    else:
+                        mutrefs.pop(lhs["l"], None)
+                elif not lhs["p"]:
+                    mutrefs.pop(lhs["l"], None)
             elif k == "cast":
                 v = operand(rv["op"])
                 if isinstance(v, tuple) and v[:1] == ("ubox",):
@@ -535,6 +600,11 @@ def run(body, start_bb, env, call=None, max_steps=400, prog=None, depth=0, inlin
                 _UBOX[env[lhs["l"]][1]] = v       # the array literal written into the box
                 continue
             if lhs["p"]:
+                root_, path_ = mutrefs.get(lhs["l"], (lhs["l"], []))
+                if lhs["p"][0] == "*" and writable(root_):
+                    # a store through a unique borrow updates the borrowed place
+                    env[root_] = _store(env.get(root_), list(path_) + [x for x in lhs["p"] if x != "*"], v)
+                    continue
                 env[lhs["l"]] = _store(env.get(lhs["l"]), lhs["p"], v)
                 continue
             env[lhs["l"]] = v
@@ -543,6 +613,8 @@ def run(body, start_bb, env, call=None, max_steps=400, prog=None, depth=0, inlin
         if k == "goto":
             bb = t["target"]
         elif k == "return":
+            if out_env is not None:
+                out_env.update({i_: env.get(i_) for i_ in range(1, n_params + 1)})
             return env.get(0)
         elif k == "switch":
             d = operand(t["discr"])
@@ -563,8 +635,8 @@ def run(body, start_bb, env, call=None, max_steps=400, prog=None, depth=0, inlin
             # `v.push(x)` / `v.extend(it)` on a local sequence value: the local now denotes the longer sequence
             if t["args"] and name.split("::")[-1] in ("push", "extend") and ("alloc::vec::Vec" in name or "Extend" in name):
                 a0_ = t["args"][0].get("move") or t["args"][0].get("copy")
-                if a0_ is not None and not a0_["p"] and a0_["l"] in mutrefs and len(args) == 2:
-                    tgt_ = mutrefs[a0_["l"]]
+                if a0_ is not None and not a0_["p"] and a0_["l"] in mutrefs and not mutrefs[a0_["l"]][1] and len(args) == 2:
+                    tgt_ = mutrefs[a0_["l"]][0]
                     old_ = env.get(tgt_)
                     if isinstance(old_, tuple) and old_[:1] in (("vec",), ("split",), ("chain",), ("once",), ("map",)):
                         add_ = ("once", args[1]) if name.split("::")[-1] == "push" else args[1]
@@ -594,6 +666,10 @@ def run(body, start_bb, env, call=None, max_steps=400, prog=None, depth=0, inlin
                 v = ("vec", tuple(c_[1]))
             if v is None and call is not None:
                 v = call(name, args, t)
+            if v is None and name in ("core::option::Option::take", "core::mem::replace") and borrowed(0) is not None:
+                # the borrowed place is emptied / overwritten, its former content is the result
+                v = args[0]
+                update(borrowed(0), NONE if name.endswith("take") else args[1])
             if v is None and prog is not None:
                 v = option_builtin(prog, name, args, call, depth, inline)
             if v is None and prog is not None:
@@ -608,8 +684,7 @@ def run(body, start_bb, env, call=None, max_steps=400, prog=None, depth=0, inlin
                     if tgt in prog._bodies_raw:
                         cb = prog.body(tgt)
                         if cb is not None and cb.arg_count == len(args):
-                            v = run(cb, 0, {i + 1: a for i, a in enumerate(args)}, call=call, prog=prog, depth=depth + 1, inline=True,
-                                    tysub=_callee_tysub(prog, tgt, t))
+                            v = inline_call(cb, t, args, _callee_tysub(prog, tgt, t))
                             break
             if v is None and inline and prog is not None:
                 # a method of a private trait called through a type parameter: the impl for the type the caller instantiated it with
@@ -619,12 +694,13 @@ def run(body, start_bb, env, call=None, max_steps=400, prog=None, depth=0, inlin
                     if cb is not None and cb.arg_count == len(args):
                         sub_ = dict(dsp[1])
                         sub_.update({k_: v_ for k_, v_ in _callee_tysub(prog, dsp[0], t).items() if k_ not in sub_})
-                        v = run(cb, 0, {i + 1: a for i, a in enumerate(args)}, call=call, prog=prog, depth=depth + 1, inline=True, tysub=sub_)
+                        v = inline_call(cb, t, args, sub_)
             if v is None:
                 raise Unrecognised("call to %s with %r" % (name, args))
             if t["dest"]["p"]:
                 raise Unrecognised("call destination with projection")
             env[t["dest"]["l"]] = v
+            mutrefs.pop(t["dest"]["l"], None)
             if t["target"] is None:
                 raise Unrecognised("PANIC: diverging call to %s" % name)
             bb = t["target"]
